@@ -175,7 +175,8 @@ def gen_circuit_case(rng, spec):
         net = refsem.Net(ins, [o for o in net.outputs], g2)
     else:
         net = netgen.rand_net(rng, shape=rng.choice(netgen.SHAPES), max_arity=4, max_in=5, max_g=spec.get('max_g', 12))
-    return {'kind': 'circuit', 'net': netgen.describe(net), 'rseed': rng.getrandbits(32), 'shuffle': rng.random() < 0.4}
+    return {'kind': 'circuit', 'net': netgen.describe(net), 'rseed': rng.getrandbits(32), 'shuffle': rng.random() < 0.4,
+            'edited': rng.random() < 0.3}
 
 
 def check_circuit(case, ctx):
@@ -189,6 +190,12 @@ def check_circuit(case, ctx):
         except Exception as e:
             ctx.count('build_failed:' + type(e).__name__)
             return
+    if case.get('edited'):
+        with monitor.suspended():
+            case = dict(case, edits_applied=netgen.random_edits(c, rng, allow_into_bench=rng.random() < 0.3))
+            CUR['case'] = case
+            net = refsem.net_of(c)
+        ctx.count('edited_circuits')
     dom = in_domain(net)
     ctx.count('domain:in' if dom else 'domain:out')
     if dom:
